@@ -816,7 +816,7 @@ func runC09(tier string) int {
 	}{
 		{c09Pop{{pat: patP1, tys: []int{tyZR}}, {pat: patP1, tys: []int{tyZ}}}, []int{0, 5}},                           // foo x
 		{c09Pop{{pat: patP1, tys: []int{tyZ}}, {pat: patP5, tys: []int{tyZ, tyX}}}, []int{0, 8, 2, 4}},                 // foo "s" mit -1
-		{c09Pop{{pat: patP3, tys: []int{tyT, tyT}}, {pat: patN1, tys: []int{tyZ}}}, []int{0, 7, 1}},                    // foo (1 plus 2) bar
+		{c09Pop{{pat: patP3, tys: []int{tyT, tyT}}, {pat: patN1, tys: []int{tyZ}}}, []int{0, 7, 1}},                    // foo (x plus 2) bar
 		{c09Pop{{pat: patP4, tys: []int{tyZ, tyZ}}, {pat: patP1, tys: []int{tyT}, imported: true}}, []int{0, 3, 2, 6}}, // foo 1 mit t
 	} {
 		w := c09Build(ex.pop, "")
@@ -840,7 +840,7 @@ func runC09(tier string) int {
 		"alias_vocabulary":    "foo bar mit <a> <b>",
 		"patterns":            "foo <a> | foo <a> bar | foo <a> <b> | foo <a> mit <b> | foo <b> mit <a>; negated: foo <a> <!bar> | foo <!mit> <a> <b> | foo <a> <!bar> mit <b>",
 		"parameter_types":     "Zahl, Text, Zahlen Referenz, Text Referenz, T (generic), Zahlen Liste",
-		"call_vocabulary":     "foo bar mit 1 -1 x t (1 plus 2) \"s\"",
+		"call_vocabulary":     "foo bar mit 1 -1 x t (x plus 2) \"s\"",
 		"call_positions":      "statement, initialiser of a Variable, (end-to-end: parenthesised argument of Schreibe)",
 		"population_families": "see coverage.families",
 	})
